@@ -679,11 +679,11 @@ func TestVerifC06Schedules(t *testing.T) {
 		{"2act-cross-node", 2, run.Pick(400, 100000)},
 		{"1act+revoke", 2, run.Pick(150, 100000)},
 		{"2act-same-client", 1, run.Pick(60, 100000)},
-		{"2act+revoke", 2, run.Pick(250, 6000)},
-		{"3act", 2, run.Pick(250, 6000)},
+		{"2act+revoke", 2, run.Pick(1500, 6000)},
+		{"3act", 2, run.Pick(600, 6000)},
 	}
 	if run.Thorough() {
-		plans = append(plans, plan{"2act-cross-node", 3, 8000})
+		plans = append(plans, plan{"2act-cross-node", 3, 8000}, plan{"2act-cross-node", 4, 6000}, plan{"1act+revoke", 4, 6000})
 	}
 	allComplete := true
 	for _, p := range plans {
